@@ -125,7 +125,6 @@ Definition struct_rank (c : N) : salpha * N * N :=
 Definition struct_from_rank (orig rank : N) : N :=
   if u8w orig =? 1 then
     if (32 <=? orig) && (orig <=? 126) then 32 + rank
-    else if orig <? 32 then rank
     else (if rank <? 32 then rank else 127)
   else if u8w orig =? 2 then 128 + rank
   else if u8w orig =? 3 then (if rank <? 53248 then 2048 + rank else 57344 + rank - 53248)
@@ -156,7 +155,8 @@ Definition content_char (p : tables) (syn : N) (c : N) : N :=
 (* the FINE character classes of shape.rs (what the test-suite's ShapeSignature keeps):
    content strings: retained characters verbatim (16 + c), replaced ones by their UTF-8 length;
    structural strings: ASCII control = 0, otherwise the UTF-8 length (1 = printable ASCII).
-   The code does NOT preserve them in all cases (AnonProofs: struct_class_refuted, content_class_refuted);
+   The code keeps the structural classes (since the repair bd9e88bf3 of the DEL rank) but not always the
+   content classes (AnonCodeProofs: content_class_refuted);
    the shape of a STATE below keeps the UTF-8 length of each character only (u8w), which determines the
    width in every text encoding and which the code does preserve. *)
 Definition cclass (c : N) : N := if is_ws c || is_ctl c then 16 + c else u8w c.
@@ -280,9 +280,6 @@ Definition tables_ok (p : tables) : Prop := forall al r, r < alpha_size al -> p 
 Definition tables_inj (p : tables) : Prop :=
   forall al r1 r2, r1 < alpha_size al -> r2 < alpha_size al -> p al r1 = p al r2 -> r1 = r2.
 Definition tables_derange (p : tables) : Prop := forall al r, r < alpha_size al -> p al r <> r.
-(* what the code would need and does NOT guarantee: no control character below U+0020 is sent to rank
-   0x20, the rank of DEL (structural_character_from_rank returns the rank itself for those originals) *)
-Definition no_del_rank (p : tables) : Prop := forall r, r < 32 -> p AsciiControl r <> 32.
 
 (* the character a rank stands for *)
 Definition decode (al : salpha) (r : N) : N :=
